@@ -448,9 +448,10 @@ fn blending_info_roundtrip() {
 // C14: Passes  --  parse(spec_enc(h)) == h, exact bit count (18181-1 F.2, table "Passes")
 //   num_passes U32(1, 2, 3, 4 + u(3)); if num_passes != 1: num_ds U32(0, 1, 2, 3 + u(1)),
 //   shift[num_passes - 1] u(2), downsample[num_ds] U32(1, 2, 4, 8), last_pass[num_ds] U32(0, 1, 2, u(3))
-// bounded: num_passes <= PASSES_MAX_PASSES (Vec construction in CBMC), all num_ds, all field values
+// bounded: num_passes <= PASSES_MAX_PASSES, num_ds <= PASSES_MAX_DS (Vec construction in CBMC), all field values
 // ---------------------------------------------------------------------------------------------------
 const PASSES_MAX_PASSES: u32 = 4;
+const PASSES_MAX_DS: u32 = 2;
 
 #[kani::proof]
 #[kani::unwind(10)]
@@ -458,7 +459,7 @@ fn passes_roundtrip() {
     let num_passes: u32 = kani::any();
     kani::assume(1 <= num_passes && num_passes <= PASSES_MAX_PASSES);
     let num_ds: u32 = kani::any();
-    kani::assume(num_ds <= 4 && (num_passes != 1 || num_ds == 0));
+    kani::assume(num_ds <= PASSES_MAX_DS && (num_passes != 1 || num_ds == 0));
     let shift: [u32; 3] = kani::any();
     let ds_log: [u32; 4] = kani::any(); // downsample = 1 << ds_log
     let last_pass: [u32; 4] = kani::any();
@@ -522,7 +523,7 @@ fn passes_roundtrip() {
         Err(_) => assert!(false, "[C14] a complete Passes bundle is accepted"),
     }
     kani::cover!(num_passes == 1 && wr.n == 2);
-    kani::cover!(num_passes == PASSES_MAX_PASSES && num_ds == 4);
+    kani::cover!(num_passes == PASSES_MAX_PASSES && num_ds == PASSES_MAX_DS);
     kani::cover!(num_passes == 3 && num_ds == 2 && last_pass[1] == 7);
 }
 
